@@ -46,7 +46,7 @@ func c15(c *Ctx) {
 	var files []*gen.File
 	n := c.N(60, 2500)
 	for i := 0; i < n; i++ {
-		o := gen.Opts{ObjRefs: true, ClassExprs: true, AttributesCmd: i%2 == 0, NonASCII: i%3 == 0, MaxDepth: 2 + i%2, BlankLines: true}
+		o := gen.Opts{ObjRefs: true, ClassExprs: true, AttributesCmd: i%2 == 0, NonASCII: i%3 == 0, MaxDepth: 2 + i%2, BlankLines: true, VerbSpacing: true, TrailingSpace: i%2 == 1, Trailers: i%4 == 0, MultiLineFrags: i%5 == 0}
 		f := gen.GenFile(newRand(c.R.Int63()), o, 1+i%2, 2+i%3)
 		_, src := f.Print()
 		ins = append(ins, []byte(src))
